@@ -549,14 +549,6 @@ def cc_unsupported_text(arch, code, pc):
         return "?"
 
 
-class CcState(object):
-    """per-shard bookkeeping for spectrum localisation: instruction forms seen in runs that matched the oracle"""
-
-    def __init__(self):
-        self.passed = collections.defaultdict(set)      # arch -> forms
-        self.pending = []                               # failures waiting for the end of the shard
-
-
 def cc_judge_run(arch, out, exp):
     """-> (status, resource, detail): status 'pass' | 'fail' | 'unsupported' | 'error'"""
     if out["kind"] == "unsupported":
@@ -725,8 +717,9 @@ class C19(Check):
             "value, the 8-word array and its guard bytes against the same C text run natively (host gcc -O1 and host "
             "clang -O0 must agree; big-endian targets: byte / half-word indices mirrored in the oracle text). A value "
             "mismatch is localised: first re-run on a fresh jitter without block cuts (bucket jitter:block-partition "
-            "if that passes), then by spectrum (instruction forms executed by the failing run and by no passing run of "
-            "the same function over 4 optimisation levels x 5 inputs). Non-trivial: >= 8 executed instructions; "
+            "if that passes; a run that hits the step limit is reported only in that case), then by spectrum "
+            "(instruction forms executed by the failing run and by no -- else by the fewest -- passing runs of the same "
+            "function over 4 optimisation levels x 4 fixed inputs). Non-trivial: >= 8 executed instructions; "
             "distinct by (arch, opt, function, inputs). "
             "(im) vlib.isamodels templates assembled by llvm-mc (never by miasm), one instruction (a whole IT block for "
             "Thumb) per run from a generated state: deterministic product of boundary operand values x flag sets capped "
